@@ -83,6 +83,9 @@ func (r *Reader) newSyntaxError(msg string) *SyntaxError {
 // before any results are read from the input file.
 func (r *Reader) Reset(ior io.Reader, fileName string, initConfig ...string) {
 	r.s = bufio.NewScanner(ior)
+	// Lines have no length limit in the format: do not fail (and lose the
+	// rest of the input) on a line longer than bufio.MaxScanTokenSize.
+	r.s.Buffer(nil, math.MaxInt)
 	if fileName == "" {
 		fileName = "<unknown>"
 	}
